@@ -614,30 +614,90 @@ theorem okN_finalOptimize (orc : Orc) (on : Bool) (fuel : Nat) {root : Node} (h 
       exact okN_withKids h2 (by rw [hk]; rfl) (by rw [okNs_cons]; simp [okN_placeBump, hks.2])
     · exact h2
 
+theorem stripCi_t (x : Node) : (stripCi x).t = x.t := by
+  unfold stripCi
+  split
+  · rfl
+  · split
+    · cases x; rfl
+    · rfl
+
+theorem stripCi_kids (x : Node) : (stripCi x).kids = x.kids := by
+  unfold stripCi
+  split
+  · rfl
+  · split
+    · cases x; rfl
+    · rfl
+
+/-- `reduce()` repairs a childless Concatenate / Alternate (its children being well-formed) -/
+theorem reduce_weak (orc : Orc) (on : Bool) (f : Nat) (pa : Bool) (x : Node) (hk : okNs x.kids = true)
+    (hs : shapeOk x.t x.kids.length = true ∨ (x.t == 24 || x.t == 25) = true) :
+    okN (reduce orc on (f + 1) pa x) = true := by
+  rcases hs with hs | hs
+  · exact (reduce_elim_ok orc on (f + 1)).1 pa x (by rw [okN_iff]; simp [hs, hk])
+  · rw [reduce]
+    simp only []
+    have ht := stripCi_t x
+    generalize stripCi x = y at ht
+    split
+    · exact fromR_ok _
+    split
+    · exact fromR_ok _
+    · rename_i h1 h2
+      exfalso
+      simp only [ht, ntAlternate, ntConcatenate] at h1 h2
+      simp only [Bool.or_eq_true] at hs
+      rcases hs with h | h
+      · exact h1 h
+      · exact h2 h
+
 mutual
-theorem okN_reduceKids (orc : Orc) (on : Bool) (fuel : Nat) : ∀ (x : Node), okN x = true → okN (reduceKids orc on fuel x) = true
+theorem reduceKids_weak (orc : Orc) (on : Bool) (f : Nat) : ∀ (x : Node), okRaw x = true →
+    okNs (reduceKids orc on (f + 1) x).kids = true ∧ (reduceKids orc on (f + 1) x).t = x.t ∧
+    (reduceKids orc on (f + 1) x).kids.length = x.kids.length
   | .mk t o ch str set m n kids, h => by
-    rw [okN_mk] at h
+    rw [okRaw] at h
     simp only [Bool.and_eq_true] at h
-    have hl := okNs_reduceList orc on fuel (t == ntAtomic) kids h.2
-    rw [reduceKids, okN_mk]
-    simp only [Bool.and_eq_true]
-    exact ⟨by rw [hl.2]; exact h.1, hl.1⟩
-theorem okNs_reduceList (orc : Orc) (on : Bool) (fuel : Nat) (pa : Bool) : ∀ (l : List Node), okNs l = true →
-    okNs (reduceList orc on fuel pa l) = true ∧ (reduceList orc on fuel pa l).length = l.length
+    have hl := reduceList_weak orc on f (t == ntAtomic) kids h.2
+    rw [reduceKids]
+    exact ⟨hl.1, rfl, hl.2⟩
+theorem reduceList_weak (orc : Orc) (on : Bool) (f : Nat) (pa : Bool) : ∀ (l : List Node), okRaws l = true →
+    okNs (reduceList orc on (f + 1) pa l) = true ∧ (reduceList orc on (f + 1) pa l).length = l.length
   | [], _ => by simp [reduceList, okNs_nil]
   | k :: ks, h => by
-    rw [okNs_cons] at h
+    rw [okRaws] at h
     simp only [Bool.and_eq_true] at h
-    have h1 := (reduce_elim_ok orc on fuel).1 pa _ (okN_reduceKids orc on fuel k h.1)
-    have h2 := okNs_reduceList orc on fuel pa ks h.2
+    have hk := reduceKids_weak orc on f k h.1
+    have h2 := reduceList_weak orc on f pa ks h.2
+    have hshape : shapeOk (reduceKids orc on (f + 1) k).t (reduceKids orc on (f + 1) k).kids.length = true ∨
+        ((reduceKids orc on (f + 1) k).t == 24 || (reduceKids orc on (f + 1) k).t == 25) = true := by
+      rw [hk.2.1, hk.2.2]
+      cases k with
+      | mk t o ch str set m n kids =>
+        have h1 := h.1
+        rw [okRaw] at h1
+        simp only [Bool.and_eq_true, Bool.or_eq_true] at h1
+        simp only [Node.t, Node.kids]
+        rcases h1.1 with h3 | h3
+        · exact Or.inl h3
+        · exact Or.inr (by simpa using h3.1)
+    have h1 := reduce_weak orc on f pa _ hk.1 hshape
     rw [reduceList]
     exact ⟨by rw [okNs_cons]; simp [h1, h2.1], by simp [h2.2]⟩
 end
 
-theorem okN_reduceRoot (orc : Orc) (on : Bool) {root : Node} (h : okN root = true) : okN (reduceRoot orc on root) = true := by
+theorem okN_reduceRoot (orc : Orc) (on : Bool) {root : Node} (h : okRawTree root = true) : okN (reduceRoot orc on root) = true := by
+  unfold okRawTree at h
+  simp only [Bool.and_eq_true] at h
   unfold reduceRoot
-  exact okN_finalOptimize orc on _ (okN_reduceKids orc on _ root h)
+  simp only []
+  have hf : fuelFor root = (6 * nodeSize root + 63) + 1 := rfl
+  rw [hf]
+  have hk := reduceKids_weak orc on (6 * nodeSize root + 63) root h.1
+  apply okN_finalOptimize
+  rw [okN_iff, hk.2.1, hk.2.2]
+  simp [h.2, hk.1]
 
 /-! ### `toGo` of a well-formed `Node` is accepted by the writer -/
 
@@ -741,7 +801,7 @@ theorem toGos_ok : ∀ (l : List Node), okNs l = true → Writer.okList (toGos l
 end
 
 /-- the reducer keeps a well-formed raw tree inside the writer's domain -/
-theorem reduceTree_ok (orc : Orc) (on : Bool) (t : Parser.RawTree) (h : okN (ofRaw t.root) = true) :
+theorem reduceTree_ok (orc : Orc) (on : Bool) (t : Parser.RawTree) (h : okRawTree (ofRaw t.root) = true) :
     (reduceTree orc on t).ok = true := by
   unfold reduceTree
   exact toGo_ok _ (okN_reduceRoot orc on h)
